@@ -1,6 +1,7 @@
 package props
 
 import (
+	"bytes"
 	"errors"
 	"fmt"
 	"math/rand/v2"
@@ -19,7 +20,7 @@ func init() {
 		Rule: "(in) generated sections of the six table types (all table_id variants, 12..1024+ bytes, alone and in multi-section units, on their PIDs; PMT behind a PAT) under corruption: every single-bit flip of every " +
 			"unit byte (exhaustive per unit), random byte substitutions, bursts ≤ 32 bits, section_length changes, truncation/extension, CRC field overwrites; the demuxer's outcome is compared with the independent " +
 			"reference decoder's accept/reject decision and decoding of the same bytes. (out) Muxer histories with ES descriptors of every supported tag and size that fits one packet (struct Length right/0/wrong) and " +
-			"writePSIData on larger PAT/PMT contents: section_length, CRC_32 and trailing stuffing judged by the reference; valid sections holding the CRC_32 of their own shortened form with the section_length rewritten to it (stage self-similar), checksum fields of all zeros / all ones / complemented / byte-reversed; every PAT/PMT packet of long Muxer sessions (hundreds of emissions of unchanged tables, stage endurance) decoded as well. distinct = hash of the corrupted unit / output; non-trivial = a corruption was applied or a section emitted",
+			"writePSIData on larger PAT/PMT contents: section_length, CRC_32 and trailing stuffing judged by the reference; valid sections holding the CRC_32 of their own shortened form with the section_length rewritten to it (stage self-similar), valid PAT sections whose body reads as a complete signed section of its own, with the section_length zeroed (stage embedded), checksum fields of all zeros / all ones / complemented / byte-reversed; every PAT/PMT packet of long Muxer sessions (hundreds of emissions of unchanged tables, stage endurance) decoded as well. distinct = hash of the corrupted unit / output; non-trivial = a corruption was applied or a section emitted",
 		Assumptions: []string{"error or nothing is always an acceptable outcome for a corrupted unit; a delivered table must be one the reference accepts from the same bytes, equal field for field and in order",
 			"the reference is refts/psi.go with the bit-serial CRC of refts/crc.go"},
 		Shards: 32,
@@ -33,6 +34,7 @@ func init() {
 			need(m, &out, "outcome_error_or_nothing", 50000)
 			need(m, &out, "muxer_sections_checked", 2000)
 			need(m, &out, "self_similar_sections", 1500)
+			need(m, &out, "embedded_sections", 400)
 			need(m, &out, "straddle_units_judged", 300)
 			need(m, &out, "written_psi_sections_checked", 300)
 			for _, k := range []string{"PAT", "PMT", "NIT", "SDT", "EIT", "TOT"} {
@@ -319,6 +321,60 @@ func selfSimilarCase(c *mon.Ctx, idx int64, r *rand.Rand) {
 	}
 }
 
+// embeddedSectionCase: a valid PAT section whose body - transport_stream_id, version byte, section numbers, program entries: bytes
+// that may hold anything - reads, from its fourth byte on, as a complete section of one of the six table types with a correct CRC_32
+// of its own, followed by 0xFF. The original is valid and must be delivered unmodified. With the section_length zeroed (one byte
+// substituted when it is below 256, a burst over its 12 bits otherwise) no PAT section is left - a section_length of 0 cannot hold the
+// fields and the CRC_32 of the table - and what the demuxer makes of the bytes must be what the reference decoder makes of them: the
+// table inside was never sent.
+func embeddedSectionCase(c *mon.Ctx, idx int64, r *rand.Rand) {
+	kind := kindsAll[idx%6]
+	for tries := 0; tries < 30; tries++ {
+		in := newC09Unit(r, kind, 1, 14+r.IntN(400))
+		ip := in.u.Payload
+		io := 1 + int(ip[0])
+		iL := int(ip[io+1]&0xf)<<8 | int(ip[io+2])
+		inner := ip[io : io+3+iL]
+		n := len(inner)
+		if n < 9 {
+			continue
+		}
+		f := 1 + r.IntN(12)
+		for (n-5+f)%4 != 0 {
+			f++
+		}
+		L := n + f + 4
+		if L > 1021 {
+			continue
+		}
+		p := []byte{0, 0x00, 0xb0 | byte(L>>8), byte(L)}
+		p = append(p, inner...)
+		p = append(p, bytes.Repeat([]byte{0xff}, f)...)
+		crc := refts.CRC32(p[1:])
+		p = append(p, byte(crc>>24), byte(crc>>16), byte(crc>>8), byte(crc))
+		_, secs, _ := refts.DecodeUnit(append(append([]byte{}, p...), 0xff))
+		if len(secs) != 1 || secs[0].Err != nil || secs[0].Section == nil || secs[0].Section.Syntax == nil || secs[0].Section.Syntax.Data.PAT == nil {
+			c.Count("embedded_candidates_not_valid")
+			continue
+		}
+		cu := &c09unit{kind: refts.KindPAT, pid: 0}
+		cu.u = &gen.Unit{PID: 0, Kind: gen.UnitPSI, Payload: p, Sections: []*astits.PSISection{secs[0].Section}}
+		cu.judge(c, "embedded", idx, p, "none", false)
+		z := append([]byte{}, p...)
+		cls := "length-byte-zeroed-embedded-section"
+		if L >= 256 {
+			cls = "length-burst-zeroed-embedded-section"
+		}
+		z[2] &= 0xf0
+		z[3] = 0
+		cu.judge(c, "embedded", idx, z, cls, true)
+		c.Count("embedded_sections")
+		c.Count("embedded_" + kind.String())
+		c.Case(mon.HashBytes("c09em", z), true)
+		return
+	}
+}
+
 func runC09(c *mon.Ctx) {
 	// valid multi-section units whose interior section header sits 1..183 bytes before the end of a packet payload (split between
 	// two packets for 1 and 2): delivered like any other, and corrupted in a few places
@@ -347,6 +403,11 @@ func runC09(c *mon.Ctx) {
 	for i := int64(0); i < c.Pick(3000, 300000); i++ {
 		if c.Mine("self-similar", i) {
 			selfSimilarCase(c, i, c.Rng("self-similar", i))
+		}
+	}
+	for i := int64(0); i < c.Pick(600, 30000); i++ {
+		if c.Mine("embedded", i) {
+			embeddedSectionCase(c, i, c.Rng("embedded", i))
 		}
 	}
 	enduranceSessions(c, func(stage string, i int64, shape string, hr *HistRun) {
